@@ -383,6 +383,17 @@ func cmdCheck(eng *Engine, args []string) int {
 	// (errDynTypeChecks - "every error built in the exporter has the type castErr asserts" - is no longer an obligation: since
 	// the accessors recover a panic of the conversion, a failing assertion there is an error of the export, not a violation)
 	scanResults = append(scanResults, eng.recoverBoundaryChecks(id)...)
+	if id == "C17" || id == "C01" {
+		// a deferred recover protects its own goroutine only: the recover boundaries of C17 / C01 presuppose that the module
+		// starts no goroutine (the same scan as under C06)
+		for _, r := range eng.mapOrderChecks("C06") {
+			if r.Name == "module/sequential#1" {
+				r.Props = []string{id}
+				r.Goal = "the module starts no goroutine: a panic cannot escape the deferred recover of the entry point on another goroutine"
+				scanResults = append(scanResults, r)
+			}
+		}
+	}
 	scanResults = append(scanResults, eng.loopVarChecks(id)...)
 	scanResults = append(scanResults, eng.quotedParamChecks(id)...)
 	scanResults = append(scanResults, eng.usedTypesChecks(id)...)
